@@ -1006,7 +1006,6 @@ class ValueProxy(BaseProxy):
     'remove',
     'reverse',
     'sort',
-    '__imul__',
 )
 class ListProxy(BaseProxy):
     def __iadd__(self, value):
